@@ -253,7 +253,14 @@ def run_ownership(case):
     now = dsched.time_shim.time()
     for a in addrs:
       courier_utils.worker_registry().register(a, now)
-    pools = [courier_worker.WorkerPool(addrs) for _ in pools_ops]
+    pools = [courier_worker.WorkerPool(addrs)]
+    if case.get('retime'):
+      # the first pool changes its workers' timeout, then the other pools are built over the very same worker objects: they
+      # must still be the same workers (one lock per worker), whatever their configuration is now
+      pools[0].set_timeout(case['retime'])
+      pools += [courier_worker.WorkerPool(pools[0].all_workers) for _ in pools_ops[1:]]
+    else:
+      pools += [courier_worker.WorkerPool(addrs) for _ in pools_ops[1:]]
     workers = pools[0].all_workers
 
     def claim(pi, w, how):
@@ -266,14 +273,14 @@ def run_ownership(case):
     def check_mine(pi, label):
       for a, p in list(owner.items()):
         if p == pi:
-          w = next(x for x in workers if x.address == a)
+          w = next(x for x in pools[pi].all_workers if x.address == a)      # the pool's own handle on that worker
           if not w.is_locked(pools[pi]):
             errors.append(('ownership-ended-by-other-pool', f'after {label}: pool {pi} acquired {a} and did not release it, '
                            f'but is_locked(pool {pi}) is False (locked={w._lock.locked()}, holder={_pool_index(pools, w)})'))  # pylint: disable=protected-access
             del owner[a]
 
     def absorb(pi, how):
-      for w in workers:
+      for w in pools[pi].all_workers:
         if w.is_locked(pools[pi]) and owner.get(w.address) != pi:
           claim(pi, w, how)
 
@@ -288,17 +295,17 @@ def run_ownership(case):
           p.next_idle_worker(maybe_acquire=True)
           absorb(pi, 'next_idle_worker')
         elif k == 'acquire_by':
-          w = workers[op[1] % nw]
+          w = p.all_workers[op[1] % nw]
           if w.acquire_by(p):
             claim(pi, w, 'acquire_by')
         elif k == 'release_all':
-          subset = [workers[i % nw] for i in op[1]] if op[1] else []
+          subset = [p.all_workers[i % nw] for i in op[1]] if op[1] else []
           mine_before = [a for a, o in owner.items() if o == pi and (not subset or a in [w.address for w in subset])]
           for a in mine_before:
             del owner[a]          # from here on this pool no longer claims them
           p.release_all(subset)
         elif k == 'release':
-          w = workers[op[1] % nw]
+          w = p.all_workers[op[1] % nw]
           if owner.get(w.address) == pi:
             del owner[w.address]
             w.release()
@@ -311,8 +318,9 @@ def run_ownership(case):
     for t in ths:
       if t.vt.exc is not None:
         raise t.vt.exc
-    for w in workers:
-      w.release()
+    for p in pools:
+      for w in p.all_workers:
+        w.release()
   try:
     _, s = dsched.run(main, case['schedule'])
   except dsched.Deadlock as e:
@@ -339,8 +347,9 @@ def strat_ownership(tier):
   op = st.one_of(st.just(['acquire_all']), st.just(['next']), st.tuples(st.just('acquire_by'), st.integers(0, 2)).map(list),
                  st.tuples(st.just('release_all'), st.lists(st.integers(0, 2), max_size=2)).map(list),
                  st.tuples(st.just('release_all'), st.just([])).map(list), st.tuples(st.just('release'), st.integers(0, 2)).map(list))
-  return st.builds(lambda w, p, s: {'workers': w, 'pools': p, 'schedule': s}, st.integers(1, 3),
-                   st.lists(st.lists(op, min_size=1, max_size=6), min_size=2, max_size=3), schedule_strategy(40))
+  return st.builds(lambda w, p, s, r: {'workers': w, 'pools': p, 'schedule': s, 'retime': r}, st.integers(1, 3),
+                   st.lists(st.lists(op, min_size=1, max_size=6), min_size=2, max_size=3), schedule_strategy(40),
+                   st.sampled_from([None, None, None, 5, 30]))
 
 
 # ------------------------------------------------------------------------------------------------ (c) pool-level operations
